@@ -1,0 +1,10 @@
+//go:build verif
+
+// Machine-checked contracts for govc (see /verif/DESIGN.md). Comments only;
+// compiled only with the build tag "verif".
+
+package finalizers
+
+// C10: the JWT put into the cache lives f.ttl; the cache entry lives f.ttl - leeway > 0.
+//@ func (*jwtFinalizer).Execute
+//@   props C10
